@@ -4,8 +4,10 @@ import (
 	"bufio"
 	"bytes"
 	"crypto/ed25519"
+	"crypto/sha256"
 	"errors"
 	"fmt"
+	"sort"
 	"strconv"
 	"strings"
 	"time"
@@ -34,6 +36,7 @@ type obj struct {
 	c      *certs.Certificate
 	held   []byte // the bytes this harness holds for the object
 	hasKey bool
+	cands  [][32]byte // public keys against which the harness checks the object's signature itself
 }
 
 type tbsEntry struct {
@@ -45,33 +48,32 @@ type tbsEntry struct {
 type world struct {
 	objs   map[int]*obj
 	store  certs.Store
-	fps    map[[32]byte]int
 	pks    map[[32]byte]int
 	pkByID map[int][32]byte
-	tbss   map[string]int
 	tbsEnt map[int]tbsEntry
 	last   string
 }
 
 func newWorld() *world {
-	return &world{objs: map[int]*obj{}, fps: map[[32]byte]int{{}: 0}, pks: map[[32]byte]int{}, pkByID: map[int][32]byte{},
-		tbss: map[string]int{}, tbsEnt: map[int]tbsEntry{}, last: "none"}
+	return &world{objs: map[int]*obj{}, pks: map[[32]byte]int{}, pkByID: map[int][32]byte{}, tbsEnt: map[int]tbsEntry{}, last: "none"}
+}
+
+// Identities are derived from the bytes themselves (48 bits of SHA-256), so that an operation line
+// keeps its meaning when other lines of the case are removed by the shrinker.
+func hashID(kind string, b []byte) int {
+	h := sha256.Sum256(append([]byte(kind), b...))
+	return int(h[0])<<40 | int(h[1])<<32 | int(h[2])<<24 | int(h[3])<<16 | int(h[4])<<8 | int(h[5]) | 1<<48
 }
 
 func (w *world) fpID(f [32]byte) int {
-	if id, ok := w.fps[f]; ok {
-		return id
+	if f == ([32]byte{}) {
+		return 0
 	}
-	id := len(w.fps)
-	w.fps[f] = id
-	return id
+	return hashID("fp", f[:])
 }
 
 func (w *world) pkID(k [32]byte) int {
-	if id, ok := w.pks[k]; ok {
-		return id
-	}
-	id := len(w.pks) + 1
+	id := hashID("pk", k[:])
 	w.pks[k] = id
 	w.pkByID[id] = k
 	return id
@@ -98,19 +100,34 @@ func (w *world) record(o *obj) string {
 	}
 	ent.sig = c.Signature
 	key := fmt.Sprintf("%d|%x|%x", rl, ent.msg, ent.sig)
-	tid, ok := w.tbss[key]
-	if !ok {
-		tid = len(w.tbss) + 1
-		w.tbss[key] = tid
-		w.tbsEnt[tid] = ent
-	}
+	tid := hashID("tbs", []byte(key))
+	w.tbsEnt[tid] = ent
 	hk := 0
 	if o.hasKey {
 		hk = 1
 	}
-	return fmt.Sprintf("%d %s %d %d %d %d %d %d %d %d %d %d", c.Type, showNames(c.IDChunk.Blocks),
+	// the signature table: crypto/ed25519 over the bytes held here, for every candidate signer
+	var valid []int
+	for _, k := range o.cands {
+		if ent.ok && ed25519.Verify(ed25519.PublicKey(k[:]), ent.msg, ent.sig[:]) {
+			valid = append(valid, w.pkID(k))
+		}
+	}
+	sort.Ints(valid)
+	v := "."
+	for i, id := range valid {
+		if i > 0 && valid[i-1] == id {
+			continue
+		}
+		if v == "." {
+			v = strconv.Itoa(id)
+		} else {
+			v += "," + strconv.Itoa(id)
+		}
+	}
+	return fmt.Sprintf("%d %s %d %d %d %d %d %d %d %d %d %d %s", c.Type, showNames(c.IDChunk.Blocks),
 		c.IssuedAt.Unix(), c.IssuedAt.Nanosecond(), c.ExpiresAt.Unix(), c.ExpiresAt.Nanosecond(),
-		w.pkID(c.PublicKey), w.fpID(c.Parent), w.fpID(c.Fingerprint), rl, tid, hk)
+		w.pkID(c.PublicKey), w.fpID(c.Parent), w.fpID(c.Fingerprint), rl, tid, hk, v)
 }
 
 func provideKey(c *certs.Certificate, seed []byte) (ok bool) {
@@ -181,7 +198,7 @@ func (w *world) getObj(s string) *obj {
 }
 
 func idx(s string) (int, bool) {
-	i, err := strconv.ParseUint(s, 10, 31)
+	i, err := strconv.ParseUint(s, 10, 62)
 	return int(i), err == nil && !strings.HasPrefix(s, "+")
 }
 
@@ -202,7 +219,7 @@ func (w *world) exec(f []string) string {
 	case len(f) == 1 && f[0] == "reset" && no == 0:
 		w.store = certs.Store{}
 		return "ok"
-	case len(f) == 4 && f[0] == "cert" && no == 12:
+	case len(f) == 5 && f[0] == "cert" && no == 13:
 		i, ok := idx(f[1])
 		b, ok2 := Unhex(f[2])
 		var seed []byte
@@ -210,13 +227,23 @@ func (w *world) exec(f []string) string {
 		if !ok3 {
 			seed, ok3 = seed32(f[3])
 		}
+		var cands [][32]byte
+		if f[4] != "." {
+			for _, h := range strings.Split(f[4], ",") {
+				k, okk := seed32(h)
+				if !okk {
+					return "bad-op"
+				}
+				cands = append(cands, [32]byte(k))
+			}
+		}
 		if !ok || !ok2 || !ok3 {
 			return "bad-op"
 		}
 		c := new(certs.Certificate)
 		// a failed parse leaves a partially filled object, which a caller can still hand to VerifyLeaf
 		c.ReadFrom(bytes.NewReader(b))
-		o := &obj{c: c, held: b}
+		o := &obj{c: c, held: b, cands: cands}
 		if seed != nil {
 			o.hasKey = provideKey(c, seed)
 		}
@@ -261,18 +288,6 @@ func (w *world) exec(f []string) string {
 		}
 		w.record(o)
 		return "ok"
-	case len(f) == 3 && f[0] == "sig" && no == 1 && (oracle[0] == "0" || oracle[0] == "1"):
-		p, ok := idx(f[1])
-		t, ok2 := idx(f[2])
-		pk, ok3 := w.pkByID[p]
-		ent, ok4 := w.tbsEnt[t]
-		if !ok || !ok2 || !ok3 || !ok4 {
-			return "bad-op"
-		}
-		if ent.ok && ed25519.Verify(ed25519.PublicKey(pk[:]), ent.msg, ent.sig[:]) {
-			return "1"
-		}
-		return "0"
 	case len(f) == 2 && f[0] == "add" && no == 0:
 		o := w.getObj(f[1])
 		if o == nil {
@@ -343,7 +358,7 @@ func (w *world) exec(f []string) string {
 			}
 			return "0"
 		})
-	case (len(f) == 9 && f[0] == "issue" || len(f) == 8 && f[0] == "issueleaf") && no == 3:
+	case (len(f) == 9 && f[0] == "issue" || len(f) == 8 && f[0] == "issueleaf") && no == 4:
 		leafOnly := f[0] == "issueleaf"
 		g := f
 		typ := uint64(certs.Leaf)
@@ -361,11 +376,6 @@ func (w *world) exec(f []string) string {
 		seed, ok3 := seed32(g[4])
 		at, ok4 := parseTime(g[5], g[6], false)
 		dur, err := strconv.ParseInt(g[7], 10, 64)
-		for _, x := range oracle {
-			if _, ok := idx(x); !ok {
-				return "bad-op"
-			}
-		}
 		if !ok || parent == nil || !ok2 || !ok3 || !ok4 || err != nil || strings.HasPrefix(g[7], "+") {
 			return "bad-op"
 		}
@@ -392,7 +402,7 @@ func (w *world) exec(f []string) string {
 			if err != nil {
 				return "marshal-failed"
 			}
-			o := &obj{c: c, held: held}
+			o := &obj{c: c, held: held, cands: [][32]byte{parent.c.PublicKey}}
 			o.hasKey = provideKey(c, seed)
 			w.objs[i] = o
 			return w.record(o)
@@ -458,6 +468,7 @@ type caseGen struct {
 	next     int
 	rootKeys [][]byte
 	intKeys  [][]byte
+	moreKeys [][]byte // further signer keys used in this case (other roots, foreign signers)
 	extras   []int // objects of earlier scenarios, usable as distractors
 }
 
@@ -469,8 +480,13 @@ func (c *caseGen) emitCert(b []byte, seed []byte) int {
 	if seed != nil {
 		sd = fmt.Sprintf("%x", seed)
 	}
-	l := fmt.Sprintf("cert %d %s %s", i, HexOrDash(b), sd)
-	rec := c.w.exec(strings.Fields(l + " :: 0 . 0 0 0 0 0 0 0 0 0 0"))
+	var ks []string
+	for _, k := range append(append([][]byte{}, c.rootKeys...), append(c.intKeys, c.moreKeys...)...) {
+		p := edPub(k)
+		ks = append(ks, fmt.Sprintf("%x", p[:]))
+	}
+	l := fmt.Sprintf("cert %d %s %s %s", i, HexOrDash(b), sd, strings.Join(ks, ","))
+	rec := c.w.exec(strings.Fields(l + " :: 0 . 0 0 0 0 0 0 0 0 0 0 ."))
 	c.g.Op("%s :: %s", l, rec)
 	return i
 }
@@ -488,46 +504,13 @@ func (c *caseGen) plain(tag string, format string, a ...any) string {
 
 func recField(rec string, k int) string {
 	f := strings.Fields(rec)
-	if len(f) != 12 {
+	if len(f) != 13 {
 		return "0"
 	}
 	return f[k]
 }
 
 func (c *caseGen) rec(i int) string { return c.w.record(c.w.objs[i]) }
-
-// sigs writes the signature-table lines for the given children against the given signer objects
-// and extra public keys
-func (c *caseGen) sigs(children []int, signers []int, extraKeys [][32]byte) {
-	seen := map[string]bool{}
-	for _, ch := range children {
-		if c.w.objs[ch] == nil {
-			continue
-		}
-		tid := recField(c.rec(ch), 10)
-		var pks []string
-		for _, s := range signers {
-			if c.w.objs[s] != nil {
-				pks = append(pks, recField(c.rec(s), 6))
-			}
-		}
-		for _, k := range extraKeys {
-			if id, ok := c.w.pks[k]; ok {
-				pks = append(pks, strconv.Itoa(id))
-			}
-		}
-		for _, p := range pks {
-			key := p + "/" + tid
-			if seen[key] {
-				continue
-			}
-			seen[key] = true
-			l := fmt.Sprintf("sig %s %s", p, tid)
-			v := c.w.exec(strings.Fields(l + " :: 0"))
-			c.g.Op("%s :: %s", l, v)
-		}
-	}
-}
 
 var labels = []string{"a", "b.example", "host", "", "srv.hop.computer", "A"}
 
@@ -675,11 +658,13 @@ func (c *caseGen) scenario() {
 		ls.signer = Pick(r, append(append([][]byte{}, c.rootKeys...), c.intKeys...))
 		if bytes.Equal(ls.signer, intKey) {
 			ls.signer = r.Bytes(32)
+			c.moreKeys = append(c.moreKeys, ls.signer)
 		}
 	case "inter-wrong-signer":
 		is.signer = Pick(r, append(append([][]byte{}, c.rootKeys...), c.intKeys...))
 		if bytes.Equal(is.signer, rootKey) {
 			is.signer = r.Bytes(32)
+			c.moreKeys = append(c.moreKeys, is.signer)
 		}
 	}
 	if edgeTag != "" {
@@ -693,6 +678,7 @@ func (c *caseGen) scenario() {
 	if m == "root-other" || m == "inter-wrong-parent" {
 		// a second, genuine root with another key
 		k2 := r.Bytes(32)
+		c.moreKeys = append(c.moreKeys, k2)
 		o := rs
 		o.pub, o.signer = edPub(k2), k2
 		otherRoot = c.emitCert(o.bytes(), k2)
@@ -762,19 +748,6 @@ func (c *caseGen) scenario() {
 	if m == "leaf-type-struct" {
 		c.plain("", "set %d type %d", leaf, Pick(r, []int{0, 2, 3, 77}))
 	}
-	// ---- signature table: every child against every key that could be taken for its signer
-	signers := []int{root, inter, presented}
-	if otherRoot >= 0 {
-		signers = append(signers, otherRoot)
-	}
-	var extra [][32]byte
-	for _, s := range [][]byte{ls.signer, is.signer} {
-		if s != nil {
-			extra = append(extra, edPub(s))
-		}
-	}
-	c.sigs([]int{root, inter, presented, leaf, otherRoot}, signers, extra)
-
 	// ---- store
 	if r.Chance(1, 2) {
 		c.plain("", "reset")
@@ -915,8 +888,12 @@ func (c *caseGen) issueScenario() {
 		} else {
 			l = fmt.Sprintf("issue %d %d %d %s %x %d %d %d", i, parent, typ, showNames(names), seed, at, atNs, dur)
 		}
-		res := c.w.exec(strings.Fields(l + " :: 0 0 0"))
-		c.g.Op("%s :: %s %s %s #%s", l, recField(res, 6), recField(res, 8), recField(res, 10), m)
+		res := c.w.exec(strings.Fields(l + " :: 0 0 0 ."))
+		v := recField(res, 12)
+		if v == "0" {
+			v = "."
+		}
+		c.g.Op("%s :: %s %s %s %s #%s", l, recField(res, 6), recField(res, 8), recField(res, 10), v, m)
 		return res
 	}
 	sec := int64(1000000000)
@@ -961,7 +938,7 @@ func (c *caseGen) issueScenario() {
 		}
 	}
 	res := issue("issue", inter, root, 2, names, intKey, at, atNs, dur)
-	if res == "err" || len(strings.Fields(res)) != 12 {
+	if res == "err" || len(strings.Fields(res)) != 13 {
 		if m == "leaf-under-root" {
 			return
 		}
@@ -989,7 +966,7 @@ func (c *caseGen) issueScenario() {
 	} else {
 		lres = issue("issue", leaf, inter, 1, lnames, leafSeed, lat, latNs, randDur())
 	}
-	if lres == "err" || len(strings.Fields(lres)) != 12 {
+	if lres == "err" || len(strings.Fields(lres)) != 13 {
 		return
 	}
 	lc := c.w.objs[leaf].c
@@ -999,7 +976,6 @@ func (c *caseGen) issueScenario() {
 		interP = c.emitCert(c.w.objs[inter].held, nil)
 		leafP = c.emitCert(c.w.objs[leaf].held, nil)
 	}
-	c.sigs([]int{root, inter, leaf, interP, leafP}, []int{root, inter}, nil)
 	c.plain("", "reset")
 	c.plain("", "add %d", root)
 	pres := strconv.Itoa(interP)
@@ -1057,14 +1033,13 @@ func gen(g *GenCtx) {
 	// malformed operation lines
 	g.Op("new")
 	g.Op("verify 0 - none 1 0 1 0")
-	g.Op("cert 1 zz - :: 1 . 0 0 0 0 1 0 1 1 1 0")
-	g.Op("cert 2 00 -")
+	g.Op("cert 1 zz - . :: 1 . 0 0 0 0 1 0 1 1 1 0 .")
+	g.Op("cert 2 00 - .")
 	g.Op("add 7")
-	g.Op("sig 9 9 :: 1")
 	g.Op("verify 0 - 300:61 1 0 1 0")
 	g.Op("verify 0 - none 1 1000000000 1 0")
 	g.Op("set 0 type 300")
-	g.Op("issue 5 0 9 . %x 1 0 1 :: 0 0 0", make([]byte, 32))
+	g.Op("issue 5 0 9 . %x 1 0 1 :: 0 0 0 .", make([]byte, 32))
 	g.Op("why now")
 	g.Op("frobnicate")
 }
